@@ -11,6 +11,7 @@ import (
 	"sort"
 	"strings"
 	"testing"
+	"time"
 
 	ml "github.com/hashicorp/memberlist"
 )
@@ -126,6 +127,125 @@ func c07MixedAlphabet(w *world) []cev {
 	return out
 }
 
+// ---- the library's own ChannelEventDelegate, read lazily
+
+// teeEvents hands every callback to the recording delegate (which copies at callback time) and to the
+// library's ChannelEventDelegate, whose channel the application reads only at the end.
+type teeEvents struct {
+	rec *eventRec
+	ch  *ml.ChannelEventDelegate
+}
+
+func (t *teeEvents) NotifyJoin(n *ml.Node)   { t.rec.NotifyJoin(n); t.ch.NotifyJoin(n) }
+func (t *teeEvents) NotifyLeave(n *ml.Node)  { t.rec.NotifyLeave(n); t.ch.NotifyLeave(n) }
+func (t *teeEvents) NotifyUpdate(n *ml.Node) { t.rec.NotifyUpdate(n); t.ch.NotifyUpdate(n) }
+
+type c07ChanReplay struct {
+	Chan []int `json:"channel_sequence"`
+}
+
+// runC07Channel applies one sequence of claims about two members; afterwards the events waiting in the
+// channel must read exactly like the log taken inside the callbacks (kind, member, metadata, address).
+func runC07Channel(t *testing.T, seq []int) (sig, msg string) {
+	type claim struct {
+		kind, node, meta string
+		addr             byte
+	}
+	menu := []claim{
+		{"alive", "x", "v1", 2}, {"alive", "x", "v2", 2}, {"alive", "x", "v3", 2}, {"alive", "x", "v1", 3},
+		{"dead", "x", "", 0}, {"left", "x", "", 0}, {"suspect", "x", "", 0},
+		{"alive", "y", "w1", 4}, {"alive", "y", "w2", 4}, {"dead", "y", "", 0}, {"update", "o", "", 0},
+	}
+	res := inBubble(t, func(b *bubble) {
+		installDetRand()
+		ch := make(chan ml.NodeEvent, 256)
+		var rec *eventRec
+		nd, err := newNode("o", ip4(1), func(c *ml.Config) {
+			rec = c.Events.(*eventRec)
+			c.Events = &teeEvents{rec, &ml.ChannelEventDelegate{Ch: ch}}
+		})
+		must(err)
+		o := b.track(nd)
+		advance(time.Microsecond)
+		inc := map[string]uint32{}
+		var desc []string
+		for i, k := range seq {
+			c := menu[k%len(menu)]
+			desc = append(desc, fmt.Sprintf("%s(%s,%s)", c.kind, c.node, c.meta))
+			switch c.kind {
+			case "alive":
+				inc[c.node]++
+				o.M.VAliveNode(&ml.VAlive{Incarnation: inc[c.node], Node: c.node, Addr: ip4(c.addr), Port: 7946, Meta: []byte(c.meta), Vsn: defaultVsn}, nil, false)
+			case "dead":
+				o.M.VDeadNode(&ml.VDead{Incarnation: inc[c.node], Node: c.node, From: "t"})
+			case "left":
+				o.M.VDeadNode(&ml.VDead{Incarnation: inc[c.node], Node: c.node, From: c.node})
+			case "suspect":
+				o.M.VSuspectNode(&ml.VSuspect{Incarnation: inc[c.node], Node: c.node, From: "t"})
+			case "update":
+				o.D.SetMeta([]byte(fmt.Sprintf("own%d", i)))
+				_ = o.M.UpdateNode(time.Millisecond)
+			}
+			advance(time.Microsecond)
+		}
+		want := rec.Since(0)
+		kinds := map[ml.NodeEventType]string{ml.NodeJoin: "join", ml.NodeLeave: "leave", ml.NodeUpdate: "update"}
+		for i, w := range want {
+			select {
+			case ev := <-ch:
+				if kinds[ev.Event] != w.Kind || ev.Node.Name != w.Name || string(ev.Node.Meta) != w.Meta || ev.Node.Address() != w.Addr {
+					sig, msg = "channel-event-differs", fmt.Sprintf("sequence %v: event %d read from the channel is %s %s meta=%q @%s, the callback delivered %s %s meta=%q @%s", desc, i, kinds[ev.Event], ev.Node.Name, ev.Node.Meta, ev.Node.Address(), w.Kind, w.Name, w.Meta, w.Addr)
+					return
+				}
+			default:
+				sig, msg = "channel-event-missing", fmt.Sprintf("sequence %v: %d events delivered, %d in the channel", desc, len(want), i)
+				return
+			}
+		}
+		if len(ch) != 0 {
+			sig, msg = "channel-event-extra", fmt.Sprintf("sequence %v: %d more events in the channel than callbacks", desc, len(ch))
+		}
+	})
+	if res.Panic != nil && sig == "" {
+		sig, msg = "panic", fmt.Sprint(res.Panic)
+	}
+	return
+}
+
+func c07Channel(t *testing.T, rep *Report) {
+	depth := 4
+	if thorough() {
+		depth = 5
+	}
+	const nMenu = 11
+	n := 0
+	var rec func(seq []int)
+	rec = func(seq []int) {
+		if len(seq) > 0 {
+			n++
+			if mine(900000 + n) {
+				journal("C07 channel %v", seq)
+				sig, msg := runC07Channel(t, seq)
+				rep.Transitions += len(seq)
+				rep.AddExtra("channel_sequences", 1)
+				if sig != "" {
+					rep.Violate("channel:"+sig, msg, c07ChanReplay{append([]int(nil), seq...)})
+					rep.Outcome("channel-violation")
+				} else {
+					rep.Outcome("channel-ok")
+				}
+			}
+		}
+		if len(seq) >= depth {
+			return
+		}
+		for k := 0; k < nMenu; k++ {
+			rec(append(append([]int(nil), seq...), k))
+		}
+	}
+	rec(nil)
+}
+
 func TestC07(t *testing.T) {
 	rep := newReport()
 	defer rep.Write(t)
@@ -149,6 +269,17 @@ func TestC07(t *testing.T) {
 	rep.Rule = "BFS to fixpoint in each host world with the event monitor as oracle: callbacks never concurrent; per member join (update)* leave; inside every callback (node lock held) and after every transition the replayed log equals the non-dead records / Members() incl. metadata"
 	rep.Assumptions = []string{"interleavings of two handlers at lock granularity are not part of this check (Engine T)"}
 	if replayT(t, rep, c01TScenarios(true)) {
+		return
+	}
+	var crp c07ChanReplay
+	if loadReplay(&crp) && len(crp.Chan) > 0 {
+		sig, msg := runC07Channel(t, crp.Chan)
+		t.Logf("replay: %q %s", sig, msg)
+		if sig != "" {
+			rep.Violate("channel:"+sig, msg, crp)
+		}
+		rep.States, rep.Transitions = 1, len(crp.Chan)
+		rep.Samples = append(rep.Samples, crp)
 		return
 	}
 	var rp swimReplay
@@ -179,6 +310,8 @@ func TestC07(t *testing.T) {
 		sc.bfs(t, rep, wd.name)
 	}
 	if !replay {
+		// ---- the library's ChannelEventDelegate read lazily: all claim sequences up to the depth
+		c07Channel(t, rep)
 		// ---- Engine N: the monitors of all nodes of a 3-node cluster through every scripted fault history of C05
 		nExecs := 0
 		for ai, act := range c05Actions {
